@@ -12,6 +12,7 @@ import (
 	"fmt"
 	"os"
 	"path/filepath"
+	"runtime"
 	"runtime/debug"
 	"strings"
 
@@ -282,6 +283,15 @@ func runCase(dir string, passes [][]byte, c *wireCase) caseObs {
 			out.Steps = append(out.Steps, doExport("export", dir, pass(c.Pass)))
 		}
 	case "chain":
+		// a key file is opened on other machines than the one that wrote it: in two chains of three every step runs
+		// with another number of processors available to the Go runtime
+		procs := func(step int) {}
+		if c.ID%3 != 0 {
+			orig := runtime.GOMAXPROCS(0)
+			defer runtime.GOMAXPROCS(orig)
+			seq := [][]int{{8, 2, 16, 1, 3, 4}, {1, 8, 2, 4, 16, 3}, {2, 4, 1, 8, 3, 16}, {4, 1, 3, 2, 8, 5}}[(c.ID/3)%4]
+			procs = func(step int) { runtime.GOMAXPROCS(seq[step%len(seq)]) }
+		}
 		da := filepath.Join(dir, fmt.Sprintf("chain-%d-a", c.ID))
 		db := filepath.Join(dir, fmt.Sprintf("chain-%d-b", c.ID))
 		defer os.RemoveAll(da)
@@ -294,6 +304,7 @@ func runCase(dir string, passes [][]byte, c *wireCase) caseObs {
 				return out
 			}
 		} else {
+			procs(0)
 			st := guarded("create", func(o *stepObs) {
 				s, err := file.CreateFileSystemSigner(da, cp(p))
 				if err != nil {
@@ -309,7 +320,9 @@ func runCase(dir string, passes [][]byte, c *wireCase) caseObs {
 				return out
 			}
 		}
+		procs(1)
 		out.Steps = append(out.Steps, doLoad("load", da, p, c.Msg))
+		procs(2)
 		ex := doExport("export", da, p)
 		out.Steps = append(out.Steps, ex)
 		if !ex.OK {
@@ -344,6 +357,7 @@ func runCase(dir string, passes [][]byte, c *wireCase) caseObs {
 				readBack(dst, o)
 			})
 		}
+		procs(3)
 		im := doImport("import", db)
 		im.OverExisting = c.Prior > 0
 		if c.Prior > 0 && !im.OK && im.Panic == "" {
@@ -357,7 +371,9 @@ func runCase(dir string, passes [][]byte, c *wireCase) caseObs {
 		}
 		out.Steps = append(out.Steps, im)
 		if im.OK {
+			procs(4)
 			out.Steps = append(out.Steps, doLoad("load2", db, q, c.Msg))
+			procs(5)
 			out.Steps = append(out.Steps, doExport("export2", db, q))
 		}
 		out.Steps = append(out.Steps, guarded("noop", func(o *stepObs) {
